@@ -295,7 +295,8 @@ class ResourceMap:
                 map_.key = None
 
         self.maps.clear()
-        self.handles.clear()
+        # Scrap shadowed handles (deeper layers) too
+        self.handles.maps[:] = [{}]
 
     def get_static_map(self) -> StaticResourceMap:
         """Generate a static map for convenience resource access.
